@@ -26,25 +26,41 @@ HEAP = "2g"          # the models and trace batches are small; a modest heap kee
 
 
 # ---------------------------------------------------------------------------------- events
-def pair_event(tc, t1, t2, fam, rot=0):
+def pair_event(tc, t1, t2, fam, rot=0, sexp=0):
     """every public function in both argument orders on the same two objects; the order of the functions
-    rotates with the case so that each of them is, on some inputs, the first to see the trees"""
+    rotates with the case so that each of them is, on some inputs, the first to see the trees.
+    sexp: all lengths of the case were multiplied by 2**sexp; graphs and results are logged in that unit"""
     table = X.api_table(tc)
     rot = rot % len(X.ALL_APIS)
     apis = X.ALL_APIS[rot:] + X.ALL_APIS[:rot]
-    ev = {"action": "Pair", "fam": fam, "g1": X.graph(t1), "g2": X.graph(t2), "calls": []}
+    ev = {"action": "Pair", "fam": fam, "sexp": sexp, "g1": X.graph(t1, sexp), "g2": X.graph(t2, sexp), "calls": []}
     for api in apis:
-        ev["calls"].append(X.call(table, api, t1, t2, 1))
-        ev["calls"].append(X.call(table, api, t2, t1, 2))
+        ev["calls"].append(X.call(table, api, t1, t2, 1, sexp=sexp))
+        ev["calls"].append(X.call(table, api, t2, t1, 2, sexp=sexp))
     return ev
 
 
-def triple_event(tc, ts):
+WEIGHTED_APIS = X.KIND_APIS["wrf"] + X.KIND_APIS["euc"]
+
+
+def big_pair_event(tc, t1, t2, rot=0):
+    """large lengths with small differences (every edge 2**32 longer): the weighted functions, both orders"""
     table = X.api_table(tc)
-    ev = {"action": "Triple", "g1": X.graph(ts[0]), "g2": X.graph(ts[1]), "g3": X.graph(ts[2]), "calls": []}
+    rot = rot % len(WEIGHTED_APIS)
+    ev = {"action": "BigPair", "g1": X.graph_big(t1), "g2": X.graph_big(t2), "calls": []}
+    for api in WEIGHTED_APIS[rot:] + WEIGHTED_APIS[:rot]:
+        ev["calls"].append(X.call(table, api, t1, t2, 1, big=True))
+        ev["calls"].append(X.call(table, api, t2, t1, 2, big=True))
+    return ev
+
+
+def triple_event(tc, ts, sexp=0):
+    table = X.api_table(tc)
+    ev = {"action": "Triple", "sexp": sexp, "g1": X.graph(ts[0], sexp), "g2": X.graph(ts[1], sexp), "g3": X.graph(ts[2], sexp),
+          "calls": []}
     for pr, (i, j) in ((12, (0, 1)), (23, (1, 2)), (13, (0, 2))):
         for api in ("symmetric_difference", "weighted_robinson_foulds_distance", "euclidean_distance"):
-            ev["calls"].append(X.call(table, api, ts[i], ts[j], 1, pr=pr))
+            ev["calls"].append(X.call(table, api, ts[i], ts[j], 1, pr=pr, sexp=sexp))
     return ev
 
 
@@ -236,9 +252,15 @@ def run_case(case):
     rng = random.Random(case.get("seed", 0))
     if kind == "pair":
         ns, taxa = build.make_namespace(dendropy, case["ntaxa"], holes=tuple(case.get("holes", ())))
-        t1, _ = X.build(dendropy, case["g1"], ns, taxa)
-        t2, _ = X.build(dendropy, case["g2"], ns, taxa)
-        return [pair_event(tc, t1, t2, case["fam"], case.get("rot", 0))]
+        sexp = case.get("sexp", 0)
+        t1, _ = X.build(dendropy, case["g1"], ns, taxa, sexp=sexp)
+        t2, _ = X.build(dendropy, case["g2"], ns, taxa, sexp=sexp)
+        return [pair_event(tc, t1, t2, case["fam"], case.get("rot", 0), sexp)]
+    if kind == "bigpair":
+        ns, taxa = build.make_namespace(dendropy, case["ntaxa"], holes=tuple(case.get("holes", ())))
+        t1, _ = X.build(dendropy, case["g1"], ns, taxa, big=True)
+        t2, _ = X.build(dendropy, case["g2"], ns, taxa, big=True)
+        return [big_pair_event(tc, t1, t2, case.get("rot", 0))]
     if kind == "redraw_api":
         # t2 = t1 redrawn through the library: children shuffled and (unrooted) the seed moved with reseed_at
         ns, taxa = build.make_namespace(dendropy, case["ntaxa"], holes=tuple(case.get("holes", ())))
@@ -259,8 +281,9 @@ def run_case(case):
         return [pair_event(tc, t1, t2, "redraw_api", case.get("rot", 0))]
     if kind == "triple":
         ns, taxa = build.make_namespace(dendropy, case["ntaxa"], holes=tuple(case.get("holes", ())))
-        ts = [X.build(dendropy, g, ns, taxa)[0] for g in case["gs"]]
-        return [triple_event(tc, ts)]
+        sexp = case.get("sexp", 0)
+        ts = [X.build(dendropy, g, ns, taxa, sexp=sexp)[0] for g in case["gs"]]
+        return [triple_event(tc, ts, sexp)]
     if kind == "ns":
         return [ns_event(dendropy, tc, case["g1"], case["g2"], case["ntaxa"], case["variant"])]
     if kind == "path":
@@ -459,6 +482,35 @@ def run_models(ctx, tier):
     return res[0], res[4]
 
 
+SEXPS = (-50, -20, 20, 40)
+
+
+def _all_lengths(g):
+    return all(v >= 0 for x, v in enumerate(g["len"]) if x + 1 != g["seed"])
+
+
+def _relength(g, k):
+    """the same drawing with other small lengths (a different weighted tree on the same splits)"""
+    return dict(g, len=[v if v < 0 else (v + 4 * ((x * (k + 1) + k) % 3)) % 16 for x, v in enumerate(g["len"])])
+
+
+def magnitude_cases(pair_cases, every):
+    """the magnitude dimension over TLC's dumped pairs with complete lengths: the same pair with all lengths
+    multiplied by 2**-50, 2**-20, 2**20, 2**40, and as large lengths (2**32 + quarters) with small differences,
+    also against the same drawing with other small parts"""
+    out = []
+    full = [c for c in pair_cases if c["fam"] in ("top", "unary", "redraw") and _all_lengths(c["g1"]) and _all_lengths(c["g2"])]
+    for k, c in enumerate(full):
+        if k % every == 0:
+            out.append(dict(c, fam=c["fam"] + "*2^%d" % SEXPS[(k // every) % 4], sexp=SEXPS[(k // every) % 4]))
+        if k % (2 * every) == 1:
+            out.append({"kind": "bigpair", "ntaxa": c["ntaxa"], "g1": c["g1"], "g2": c["g2"], "rot": k})
+        if k % (4 * every) == 2:
+            out.append({"kind": "bigpair", "ntaxa": c["ntaxa"], "g1": c["g1"], "g2": _relength(c["g1"], k), "rot": k})
+            out.append({"kind": "bigpair", "ntaxa": c["ntaxa"], "g1": c["g2"], "g2": c["g2"], "rot": k})
+    return out
+
+
 def random_cases(ctx, npair, ntriple, nhist, nns):
     rng = random.Random(ctx.seed * 7919 + 4)
     cases = []
@@ -484,7 +536,9 @@ def random_cases(ctx, npair, ntriple, nhist, nns):
             if rng.random() < 0.5:
                 g1 = dict(g1, len=[-1] * g1["n"])
         cases.append({"kind": "pair", "fam": "random", "ntaxa": ntaxa, "holes": holes, "g1": g1, "g2": g2,
-                      "seed": ctx.seed * 1000003 + k, "rot": k})
+                      "seed": ctx.seed * 1000003 + k, "rot": k, "sexp": SEXPS[(k // 3) % 4] if k % 3 == 0 else 0})
+        if k % 3 == 1 and _all_lengths(g1) and _all_lengths(g2):
+            cases.append({"kind": "bigpair", "ntaxa": ntaxa, "holes": holes, "g1": g1, "g2": g2 if k % 2 else _relength(g1, k), "rot": k})
         cases.append({"kind": "redraw_api", "ntaxa": ntaxa, "holes": holes, "g1": g1, "seed": ctx.seed * 1000003 + 500000 + k,
                       "rot": k + 5})
     for k in range(ntriple):
@@ -494,7 +548,8 @@ def random_cases(ctx, npair, ntriple, nhist, nns):
         idx3 = [t - 1 for t in g1["tx"] if t]
         rng.shuffle(idx3)
         g3 = _random_tree_graph(rng, nl, idx3, rooted)
-        cases.append({"kind": "triple", "ntaxa": ntaxa, "holes": holes, "gs": [g1, g2, g3]})
+        cases.append({"kind": "triple", "ntaxa": ntaxa, "holes": holes, "gs": [g1, g2, g3],
+                      "sexp": SEXPS[(k // 2) % 4] if k % 2 == 0 else 0})
     for k in range(nhist):
         nl = rng.randint(6, 12)
         rooted = rng.choice((1, 0))
@@ -520,15 +575,19 @@ def run(ctx):
     rnd = random_cases(ctx, *((60, 40, 60, 12) if q else (2500, 1500, 1500, 200)))
     ns_small = [{"kind": "ns", "ntaxa": c["ntaxa"], "g1": c["g1"], "g2": c["g2"], "variant": ("fresh", "shared_taxa")[k % 2]}
                 for k, c in enumerate(pair_cases[::max(1, len(pair_cases) // (40 if q else 400))])]
-    driven = ctx.drive(pair_cases + path_cases + rnd + ns_small, run_case)
+    mag = magnitude_cases(pair_cases, 8 if q else 1)
+    driven = ctx.drive(pair_cases + mag + path_cases + rnd + ns_small, run_case)
     ctx.judge("Trace_TreeCompare", driven, batch=1500 if q else 4000, heap=HEAP)
     skipped = 0
     for case, evs in driven:
         for e in evs:
             a = e["action"]
             skipped += e.get("skipped", 0)
-            if a == "Pair" and (e["g1"]["kids"] != e["g2"]["kids"] or e["g1"]["tx"] != e["g2"]["tx"] or e["g1"]["len"] != e["g2"]["len"]):
-                ctx.add_nontrivial(["Pair", e["g1"]["kids"], e["g1"]["tx"], e["g1"]["len"], e["g1"]["rooted"],
+            if a == "BigPair":
+                ctx.add_nontrivial(["BigPair", e["g1"]["kids"], e["g1"]["tx"], e["g1"]["len"], e["g1"]["rooted"],
+                                    e["g2"]["kids"], e["g2"]["tx"], e["g2"]["len"]])
+            elif a == "Pair" and (e["g1"]["kids"] != e["g2"]["kids"] or e["g1"]["tx"] != e["g2"]["tx"] or e["g1"]["len"] != e["g2"]["len"]):
+                ctx.add_nontrivial(["Pair", e.get("sexp", 0), e["g1"]["kids"], e["g1"]["tx"], e["g1"]["len"], e["g1"]["rooted"],
                                     e["g2"]["kids"], e["g2"]["tx"], e["g2"]["len"]])
             elif a == "Triple":
                 ctx.add_nontrivial(["Triple", e["g1"]["par"], e["g1"]["tx"], e["g2"]["par"], e["g2"]["tx"], e["g3"]["par"], e["g3"]["tx"]])
@@ -538,6 +597,7 @@ def run(ctx):
     ctx.drift["model_ops_not_applicable_on_the_real_structure"] = skipped
     ctx.rule = ("cases = every pair of TLC's dump of MC_TreeCompare (%s) x 11 public functions x both argument orders"
                 " + one real execution per transition of the dumped state graph of MC_TreeCompareHist (%d transitions)"
+                " + the magnitude dimension over those pairs (all lengths x 2^-50, 2^-20, 2^20, 2^40; lengths 2^32 + quarters)"
                 " + seeded random pairs / API re-drawings / triples / edit-and-distance histories on trees with 6-12 leaves"
                 " + different-namespace calls; distinct_nontrivial = distinct (tree pair with different drawings) Pair events,"
                 " distinct triples, and distinct (function, flag, order, structures, cached encodings) distance calls made"
@@ -550,6 +610,9 @@ def run(ctx):
                            "returned float and represents it as a rational (vlib/proj.rat, round-trip checked)")
     ctx.assumptions.append("value of the weighted distances is not judged for an unrooted tree with a bifurcating seed whose two seed "
                            "edges are not both present (the statement does not fix the length of that merged edge); definedness is")
+    ctx.assumptions.append("magnitudes: powers of two are divided out exactly by the harness; for lengths 2^32 + q/4 TLC computes with pairs "
+                           "<<multiples of 2^32, quarter units>> and decides the exact Euclidean value only when the large parts cancel "
+                           "split by split (otherwise: zero iff same weighted tree, symmetry)")
     ctx.assumptions.append("trees have at least 3 leaves; both trees of a call share one leaf set (as the property quantifies)")
     if driven:
         ctx.add_sample({"case": driven[0][0], "calls": driven[0][1][0].get("calls", [])[:4]})
